@@ -207,3 +207,25 @@ Theorem C07_values_for_path_code_is_model_full : forall pf st m path subkeys,
   = of_res (values_for_path pf (g_fieldSep st) (VMap m) path subkeys).
 Proof. exact values_for_path_code_is_model_full. Qed.
 Print Assumptions C07_values_for_path_code_is_model_full.
+
+(* ---- the string forms of ValueForPath, translated from the current keyvalues.go (GenProofs/PureG39.v): the same error as
+   ValueForPath, and for a scalar first value its %v text *)
+From Mxj Require GenProofs.PureG39.
+
+Theorem C07_value_for_path_string_code_is_model : forall pf st m path, g_fieldSep st <> [] ->
+  match value_for_path pf (g_fieldSep st) (VMap m) path with
+  | Ok v => PureG39.is_scalar v = true -> fn_ValueForPathString (run_ValuesForPath pf st) st m path = Ret (Ok (Fmt.fmt_v v))
+  | Err e => fn_ValueForPathString (run_ValuesForPath pf st) st m path = Ret (Err e)
+  | Panic => fn_ValueForPathString (run_ValuesForPath pf st) st m path = Crash
+  end.
+Proof. exact PureG39.value_for_path_string_code_is_model. Qed.
+Print Assumptions C07_value_for_path_string_code_is_model.
+
+Theorem C07_value_or_empty_for_path_string_code_is_model : forall pf st m path, g_fieldSep st <> [] ->
+  match value_for_path pf (g_fieldSep st) (VMap m) path with
+  | Ok v => PureG39.is_scalar v = true -> fn_ValueOrEmptyForPathString (PureG39.run_ValueForPathString pf st) st m path = Ret (Fmt.fmt_v v)
+  | Err e => fn_ValueOrEmptyForPathString (PureG39.run_ValueForPathString pf st) st m path = Ret []
+  | Panic => fn_ValueOrEmptyForPathString (PureG39.run_ValueForPathString pf st) st m path = Crash
+  end.
+Proof. exact PureG39.value_or_empty_for_path_string_code_is_model. Qed.
+Print Assumptions C07_value_or_empty_for_path_string_code_is_model.
